@@ -41,9 +41,9 @@ ENGINE = "direct"
 TECHNIQUE = "totality + output scan of prettify_message over all views; DNS view round trip against an independent RFC 1035 decoder"
 BUDGET = {"quick": (2000, 14), "thorough": (200_000, 200)}
 WORKERS = {"quick": 2, "thorough": 16}
-REQUIRED = ["render_total", "render_no_control", "dns_reencode", "dns_roundtrip_equal", "malformed_content_type"]
+REQUIRED = ["render_total", "render_no_control", "dns_reencode", "dns_roundtrip_equal", "dns_roundtrip.boundary_values", "malformed_content_type"]
 RULE = (
-    "case = (body generator among random/text/JSON/GraphQL/XML-HTML/CSS/JS/protobuf/gRPC/MQTT/multipart/urlencoded/PNG-GIF-JPEG-ICO/"
+    "first a fixed boundary-value matrix for the DNS round trip (id 0/1/0x7fff/0x8000/0xffff under every wrapper, each flag 0/1, reserved bits, opcode 0..15, rcode 0..15, zero counts, empty/root question, TTL 0/1/2^31-1/2^31/2^32-1, type/class 0/255/65535, empty RDATA); then case = (body generator among random/text/JSON/GraphQL/XML-HTML/CSS/JS/protobuf/gRPC/MQTT/multipart/urlencoded/PNG-GIF-JPEG-ICO/"
     "zip/msgpack/socket.io/HTTP3/WBXML/DNS, optional byte-level mutation, message wrapper http-req/http-resp/tcp/udp/ws/dns, "
     "content-type matching/other/none/malformed (valueless, empty or =-only parameters, unbalanced quotes, several slashes, non-ASCII, very long), content-encoding, requested view = auto | matching | any registered | unknown); "
     "distinct = distinct (generator kind, wrapper, requested-view class, view that rendered, outcome ok/error-text/raw-fallback, mutated) "
@@ -351,8 +351,12 @@ KNOWN_TYPES = sorted(_mtypes._STRINGS)
 TYPE_NAMES = dict(_mtypes._STRINGS)
 
 
-def dns_case(ctx, r):
-    wire, feats = G.message(r, KNOWN_TYPES)
+def dns_case(ctx, r, preset=None):
+    """preset = (label, wire, wrapper) for the fixed boundary-value matrix, else a random message."""
+    if preset is None:
+        wire, feats = G.message(r, KNOWN_TYPES)
+    else:
+        wire, feats = preset[1], {"boundary:" + preset[0].split("=")[0]}
     try:
         ref = D.decode(wire)
         notes = set(D.NOTES)
@@ -360,7 +364,7 @@ def dns_case(ctx, r):
         ctx.count("generator_rejected")
         ctx.case(("dns", "ref-reject"), nontrivial=False)
         return
-    wk = r.choice(["udp", "udp", "tcp", "http", "dnsmsg"])
+    wk = preset[2] if preset is not None else r.choice(["udp", "udp", "tcp", "http", "dnsmsg"])
     framed = wk in ("tcp", "http")
     data = (len(wire).to_bytes(2, "big") + wire) if framed else wire
     if wk == "dnsmsg":
@@ -389,6 +393,8 @@ def dns_case(ctx, r):
         f = tflow.tdnsflow(req=m)
     view = r.choice(["dns", "dns", "DNS", "auto"])
     what = {"wrapper": wk, "view": view, "wire": wire, "features": sorted(feats)}
+    if preset is not None:
+        what["boundary"] = preset[0]
     res = render(ctx, m, f, view, what)
     outcome = "none"
     if res is not None:
@@ -398,6 +404,8 @@ def dns_case(ctx, r):
         else:
             outcome = "ok"
             ctx.count("dns_reencode")
+            if preset is not None:
+                ctx.count("dns_roundtrip.boundary_values")
             try:
                 out = contentviews.reencode_message(res.text, m, f, "dns")
                 if framed:
@@ -435,6 +443,17 @@ def run(ctx):
     logging.disable(logging.CRITICAL)
     views = contentviews.registry.available_views()
     with taddons.context():
+        # fixed matrix first: boundary values of every DNS header / record field through the round-trip leg (split over the workers)
+        bm = G.boundary_matrix()
+        if ctx.only_case is not None and ctx.only_case < 0:
+            ctx.case_index = ctx.only_case
+            dns_case(ctx, ctx.case_rng(-ctx.only_case - 1, "boundary"), bm[-ctx.only_case - 1])
+            return
+        if ctx.only_case is None:
+            for k, item in enumerate(bm):
+                if k % ctx.nworkers == ctx.worker:
+                    ctx.case_index = -(k + 1)
+                    dns_case(ctx, ctx.case_rng(k, "boundary"), item)
         for i in ctx.cases():
             r = ctx.rng
             if r.random() < 0.4:
